@@ -143,6 +143,11 @@ class ConstBitStream(Bits):
         s._pos = 0
         return s
 
+    def copy(self: TConstBitStream) -> TConstBitStream:
+        """Return a copy of the bitstring, with its own bit position (starting at 0)."""
+        # The data can be shared as it's immutable, but the bit position can't be.
+        return self.__copy__()
+
     def __and__(self: TConstBitStream, bs: BitsType, /) -> TConstBitStream:
         """Bit-wise 'and' between two bitstrings. Returns new bitstring.
 
